@@ -46,18 +46,24 @@ NQ_ALPHA = 32    # len(Alphabet(QueryNames, false))
 NS_ALPHA = 41
 NQ_HOLES = 13    # len(hparse.QueryHoles)
 NS_HOLES = 25    # len(hparse.SchemaHoles)
+NQ_DOCS = 17     # len(hparse.QuerySeedDocs())
+NS_DOCS = 35     # len(hparse.SchemaSeedDocs())
 
 
-def stream_cases(nprefix, nalpha, kq, kpq, kt, kpt, extra=None, nholes=0):
+def stream_cases(nprefix, nalpha, kq, kpq, kt, kpt, extra=None, nholes=0, ndocs=0, doc_k=(1, 2)):
     """prefix 0 (free streams) up to k tokens; every other prefix with kp symbolic tokens.
     The largest free-stream length is split by its first token. nholes: (opening, closing)
-    templates around a hole of 1..2 (quick) / 1..3 (thorough) symbolic tokens."""
+    templates around a hole of 1..3 symbolic tokens. ndocs: complete seed documents with
+    1..2 (thorough: ..3) symbolic tokens inserted at every position (case split inside the run)."""
     def f(tier, seed):
         k, kp = (kq, kpq) if tier == "quick" else (kt, kpt)
         cs = []
         for h in range(nholes):
-            for hk in ((1, 2) if tier == "quick" else (1, 2, 3)):
+            for hk in (1, 2, 3):
                 cs.append(dict({"k": hk, "hole": h}, **(extra or {})))
+        for d in range(ndocs):
+            for dk in (doc_k if tier == "quick" else tuple(doc_k) + (3,)):
+                cs.append(dict({"k": dk, "doc": d}, **(extra or {})))
         for i in range(0, k):
             cs.append(dict({"k": i, "prefix": 0}, **(extra or {})))
         for first in range(nalpha + (1 if (extra or {}).get("invalid") else 0)):
@@ -98,6 +104,8 @@ def validate_cases(tier, seed):
         cs.append({"shape": 7, "alt1": a1})
     cs.append({"shape": 10})                 # misspelt names with tied suggestion candidates
     cs.append({"shape": 11})                 # the same two named fragments meeting twice (exclusive / non-exclusive parents, either order)
+    cs.append({"shape": 12})                 # two defined fragments side by side, each may spread a further (defined / undefined / own) fragment
+    cs.append({"shape": 13})                 # one argument position used twice (defaulted and plain variable, literal, null, left out)
     return cs
 
 
@@ -106,7 +114,7 @@ def determinism_cases(tier, seed):
     lighter pieces of each shape; thorough takes every piece of validate_cases."""
     if tier == "thorough":
         return validate_cases(tier, seed)
-    cs = [{"shape": 10}, {"shape": 11}, {"shape": 9}, {"shape": 5}, {"shape": 6}, {"shape": 3}, {"shape": 4}]
+    cs = [{"shape": 10}, {"shape": 11}, {"shape": 12}, {"shape": 13}, {"shape": 9}, {"shape": 5}, {"shape": 6}, {"shape": 3}, {"shape": 4}]
     for a3 in (0, 2, 4):
         cs.append({"shape": 0, "alt3": a3})
     for a1, a3 in ((0, 0), (1, 1), (2, 2), (3, 3), (4, 0)):
@@ -121,7 +129,7 @@ def determinism_cases(tier, seed):
 def compose_cases(tier, seed):
     """hval.Compose validates every document 37 times (default set, explicit full list, each of
     the 27 rules alone, 4 twin pairs): light pieces only."""
-    cs = [{"shape": 10}, {"shape": 11}, {"shape": 9}, {"shape": 5}, {"shape": 6}, {"shape": 4}]
+    cs = [{"shape": 10}, {"shape": 11}, {"shape": 12}, {"shape": 13}, {"shape": 9}, {"shape": 5}, {"shape": 6}, {"shape": 4}]
     for a3 in (0, 4):
         cs.append({"shape": 0, "alt3": a3})
     for top in range(3):
@@ -156,24 +164,24 @@ CHECKS = {
         "assumptions": LEX_ASSUME,
     },
     "C05": {
-        "units": [{"pkg": "verifh/hparse", "fn": "QueryRef", "cases": stream_cases(NQ_PREFIX, NQ_ALPHA, 4, 3, 6, 5, nholes=NQ_HOLES), "panic_prop": "C05"}],
+        "units": [{"pkg": "verifh/hparse", "fn": "QueryRef", "cases": stream_cases(NQ_PREFIX, NQ_ALPHA, 4, 3, 6, 5, nholes=NQ_HOLES, ndocs=NQ_DOCS), "panic_prop": "C05"}],
         "covers": ["C05.accepted", "C05.rejected"],
-        "bounds": {"quick": "every stream of <= 4 tokens over the 32-symbol executable alphabet; 3 arbitrary tokens after each of 11 concrete openings; 1-2 arbitrary tokens in a hole at each of 13 positions (every value position - the constant ones included - and every name position after a punctuator or keyword) of otherwise complete documents",
-                   "thorough": "<= 6 free tokens; 5 after each opening; 1-3 in each hole"},
+        "bounds": {"quick": "every stream of <= 4 tokens over the 32-symbol executable alphabet; 3 arbitrary tokens after each of 11 concrete openings; 1-3 arbitrary tokens in a hole at each of 13 positions (every value position - the constant ones included - and every name position after a punctuator or keyword) of otherwise complete documents; 1-2 arbitrary tokens inserted at every position of 17 complete documents",
+                   "thorough": "<= 6 free tokens; 5 after each opening; 1-3 in each hole; 1-3 inserted at every position"},
         "outside": "longer streams; that rendered text lexes back to the intended tokens is checked natively at replay only",
         "assumptions": PARSE_ASSUME + ["reference recogniser hparse.RefQuery written from section 2 of the specification; validated natively against parser/query_test.yml at setup"],
     },
     "C06": {
-        "units": [{"pkg": "verifh/hparse", "fn": "SchemaRef", "cases": stream_cases(NS_PREFIX, NS_ALPHA, 3, 3, 5, 4, nholes=NS_HOLES), "panic_prop": "C06"}],
+        "units": [{"pkg": "verifh/hparse", "fn": "SchemaRef", "cases": stream_cases(NS_PREFIX, NS_ALPHA, 3, 3, 5, 4, nholes=NS_HOLES, ndocs=NS_DOCS), "panic_prop": "C06"}],
         "covers": ["C06.accepted", "C06.rejected"],
-        "bounds": {"quick": "every stream of <= 3 tokens over the 41-symbol type-system alphabet; 3 arbitrary tokens after each of 19 concrete openings; 1-2 arbitrary tokens in a hole at each of the 25 positions of the type-system grammar that hold a constant value (every directive-argument value and default value, definitions and extensions) of otherwise complete documents",
-                   "thorough": "<= 5 free tokens; 4 after each opening; 1-3 in each hole"},
+        "bounds": {"quick": "every stream of <= 3 tokens over the 41-symbol type-system alphabet; 3 arbitrary tokens after each of 19 concrete openings; 1-3 arbitrary tokens in a hole at each of the 25 positions of the type-system grammar that hold a constant value (every directive-argument value and default value, definitions and extensions) of otherwise complete documents; 1-2 arbitrary tokens inserted at every position of 35 complete documents (every kind of definition and extension)",
+                   "thorough": "<= 5 free tokens; 4 after each opening; 1-3 in each hole; 1-3 inserted at every position"},
         "outside": "longer streams",
         "assumptions": PARSE_ASSUME + ["reference recogniser hparse.RefSchema written from section 3; validated natively against parser/schema_test.yml and the prelude at setup"],
     },
     "C16": {
-        "units": [{"pkg": "verifh/hparse", "fn": "QueryLimit", "cases": stream_cases(NQ_PREFIX, NQ_ALPHA, 3, 2, 5, 4, nholes=NQ_HOLES), "panic_prop": "C16"},
-                  {"pkg": "verifh/hparse", "fn": "SchemaLimit", "cases": stream_cases(NS_PREFIX, NS_ALPHA, 3, 2, 4, 3, nholes=NS_HOLES), "panic_prop": "C16"}],
+        "units": [{"pkg": "verifh/hparse", "fn": "QueryLimit", "cases": stream_cases(NQ_PREFIX, NQ_ALPHA, 3, 2, 5, 4, nholes=NQ_HOLES, ndocs=NQ_DOCS, doc_k=(1,)), "panic_prop": "C16"},
+                  {"pkg": "verifh/hparse", "fn": "SchemaLimit", "cases": stream_cases(NS_PREFIX, NS_ALPHA, 3, 2, 4, 3, nholes=NS_HOLES, ndocs=NS_DOCS, doc_k=(1,)), "panic_prop": "C16"}],
         "covers": ["C16.both-parse", "C16.over-limit"],
         "bounds": {"quick": "streams as for C05/C06 with <= 3 free tokens (2 after an opening), every limit 0..tokens+2, all four limited entry points reached through ParseQueryWithTokenLimit / ParseSchemaWithLimit",
                    "thorough": "<= 5 / 4 free tokens"},
@@ -181,10 +189,12 @@ CHECKS = {
         "assumptions": PARSE_ASSUME,
     },
     "C08": {
-        "units": [{"pkg": "verifh/hval", "fn": "ValidateRef", "cases": validate_cases, "panic_prop": "C02"}],
-        "covers": ["C08.accepted", "C08.rejected", "C08.accepted-optional-arg", "C08.accepted-required-arg", "C08.accepted-variable-in-optional-arg"],
+        "units": [{"pkg": "verifh/hval", "fn": "ValidateRef", "cases": validate_cases, "panic_prop": "C02"},
+                  {"pkg": "verifh/hval", "fn": "TypeCompat", "cases": {"quick": [{}], "thorough": [{}]}, "panic_prop": "C02"}],
+        "covers": ["C08.accepted", "C08.rejected", "C08.accepted-optional-arg", "C08.accepted-required-arg", "C08.accepted-variable-in-optional-arg",
+                   "C08.compatible-pair", "C08.incompatible-pair"],
         "case_timeout": {"quick": 400, "thorough": 1200},
-        "bounds": {"quick": "12 document shapes (one argument with every kind of literal incl. 32/64-bit integer boundaries, list/object/empty-object literals; a variable definition of every type shape with/without default used bare, in a list, in an object; fragments/spreads/type conditions; field merging below an interface; same-named fields with different arguments; directives; operation kinds/names/subscriptions; introspection depth 5; nested selections) with all names symbolic, against the full default rule set; verdict compared with the reference validator",
+        "bounds": {"quick": "14 document shapes (one argument with every kind of literal incl. 32/64-bit integer boundaries, list/object/empty-object literals; a variable definition of every type shape with/without default used bare, in a list, in an object; fragments/spreads/type conditions; field merging below an interface; same-named fields with different arguments; directives; operation kinds/names/subscriptions; introspection depth 5; nested selections) with all names symbolic, against the full default rule set; verdict compared with the reference validator; plus the type-level unit: (*ast.Type).IsCompatible against AreTypesCompatible on every pair of types up to three list levels with every non-null pattern",
                    "thorough": "the same plus the heaviest fragment pieces (two fragments that both spread, with an inline fragment)"},
         "outside": "documents larger than the shapes; interactions needing more than 2 fragments or depth > 5; schemas other than the kitchen-sink one; per-rule verdicts (only the overall verdict is compared)",
         "assumptions": VALIDATE_ASSUME,
